@@ -399,3 +399,45 @@ def memo_obligations(prog, rule, classes, skip=("__init__", "pass_spatial_data",
             if o.slots.get("conditional") or not o.ok:
                 out.append(o)
     return out
+
+
+def cancellation_obligations(prog, rule, rels):
+    """One obligation per source file: no squared distance is formed from the expanded square |p|^2 + |q|^2 - 2 p.q (see
+    lints.expanded_square_distance); temporaries are inlined first (term resolution), so the three summands may be spread
+    over several statements."""
+    from .. import lints
+    from ..model import iter_functions
+    from ..term import Resolver
+    out = []
+    for rel_ in rels:
+        mi = prog.module(rel_)
+        hits, n_fn = [], 0
+        for qn, fn in iter_functions(mi.tree):
+            n_fn += 1
+            try:
+                rz = Resolver(fn, prog, mi)
+            except Exception:
+                rz = None
+            for st in ast.walk(fn):
+                if not isinstance(st, (ast.Assign, ast.AugAssign, ast.Return, ast.Expr)) or getattr(st, "value", None) is None:
+                    continue
+                term = st.value
+                if rz is not None:
+                    try:
+                        term = rz.term(st.value, at=st)
+                    except Exception:
+                        term = st.value
+                for text in lints.expanded_square_distance(term):
+                    hits.append((qn, st.lineno, text))
+                    break
+        msg = ""
+        if hits:
+            qn, line, text = hits[0]
+            msg = (f"`{text[:160]}` in {qn} (line {line}): a squared distance formed as |p|^2 + |q|^2 - 2 p.q loses all significant "
+                   f"digits when the coordinates are large against their separation; the kernel then differs from the one built "
+                   f"from coordinate differences" + (f" (+{len(hits) - 1} more)" if len(hits) > 1 else ""))
+        out.append(struct_ob(rule, rel_, not hits, msg, rel_, hits[0][1] if hits else 0, slots={"functions_scanned": n_fn, "hits": len(hits)}))
+    ex = ast.parse("def f(p, q):\n    a = (p ** 2).sum(axis=1)\n    b = (q ** 2).sum(axis=1)\n    return a[:, None] + b[None, :] - 2 * (p @ q.T)\n").body[0]
+    if not lints.expanded_square_distance(Resolver(ex).term(ex.body[-1].value, at=ex.body[-1])):
+        raise AnalysisError("cancellation lint lost its positive example")
+    return out
